@@ -17,7 +17,9 @@ def _update(self):
             child._update()
 ```
 
-(the `try / finally` is the `fix:` for finding D41; `updateOld` below is the code before it: the variants were
+(this is the code after the `fix:` for finding D41; since the `fix:` for finding D47 — several variants,
+`Model/BuildForest.lean` — the loop over the variants also survives a variant that cannot be rebuilt, which for ONE
+variant is the same behaviour; `updateOld` below is the code before it: the variants were
 updated only when the function's own rebuild had gone through).
 
 Faults: a *natural* failure is a method that cannot be built (`Cfg`); an *interrupt* is abstracted to one bit per
